@@ -13,8 +13,8 @@ VARIABLES ti, sc, nret, drops, found, execs, xi
 
 tvvars == <<ti, sc, nret, drops, found, execs, xi>>
 
-NoScen == [kind |-> "", shape |-> "", n |-> 0, ctor |-> "", ops |-> <<>>, dtor |-> ""]
-Sig(s, sym) == s.kind \o "/" \o s.shape \o "/" \o s.ctor \o "/" \o s.dtor \o "/" \o sym
+NoScen == [kind |-> "", shape |-> "", mem |-> "", n |-> 0, ctor |-> "", ops |-> <<>>, dtor |-> ""]
+Sig(s, sym) == s.kind \o "/" \o s.shape \o "/" \o s.mem \o "/" \o s.ctor \o "/" \o s.dtor \o "/" \o sym
 FlagP(p, sym) == found' = found \cup {[p |-> p, s |-> Sig(sc, sym), x |-> xi, ln |-> ti]}
 Flag(sym) == FlagP("C16", sym)
 
@@ -43,7 +43,7 @@ TVNext ==
                ELSE UNCHANGED found
             /\ UNCHANGED <<sc, nret, execs, xi>>
        [] ev.e = "vheld" ->    \* hold state of the members of a tuple / array / Vec / Box<[T]> shaped collection
-            /\ IF ev.when = "guard" /\ ev.locked # ev.total THEN FlagP("C04", "member-not-locked-under-guard")
+            /\ IF ev.when \in {"guard", "rguard"} /\ ev.locked # ev.total THEN FlagP("C04", "member-not-locked-under-guard")
                ELSE IF ev.when = "after" /\ ev.locked # 0 THEN FlagP("C05", "member-locked-after-guard-drop")
                ELSE UNCHANGED found
             /\ UNCHANGED <<sc, nret, drops, execs, xi>>
